@@ -17,6 +17,8 @@ from vf import runner
 
 ID = 'C19'
 LEVEL = 'exploration'
+QUICK_SCALE = 3.5      # the quick tier was enlarged by this factor after MIN_OBS['quick'] was measured
+QUICK_FIXED = ('kinds_covered', 'exhaustive_sequences')      # counters of fixed-size parts (coverage, enumerations): not scaled
 ME = 'me'
 USERS = ('me', 'u1', 'u2')
 ROOMS = ('r1', 'r2')          # r1 public-ish, r2 private-ish (only biases the generator)
@@ -64,7 +66,7 @@ MIN_OBS = {
                  'acks_checked': 6000, 'kinds_covered': 25, 'exhaustive_sequences': 2400},
 }
 SHARD_TIMEOUT = {'quick': 600, 'thorough': 5400}
-N_RANDOM = {'quick': 1500, 'thorough': 60000}
+N_RANDOM = {'quick': 6000, 'thorough': 60000}
 WHAT_FAILS = {
     'state:': 'a room/user field differs from the fold of the announcements after the named notification kind',
     'event:wrong-target': 'an event names a room/user other than the one the notification announced',
